@@ -1,9 +1,14 @@
 import Genq.Props.C17
 open Genq.Files
 open Genq
+open Genq.Lines
 #print axioms C17_collect_perm
 #print axioms C17_split_graphql
 #print axioms C17_literal_equals_file
 #print axioms C17_unselected_literal_ignored
 #print axioms C17_comment_scan_local
 #print axioms C17_expandFilenames_tie
+#print axioms C17_lines_are_the_lexers_lines
+#print axioms C17_line_ending_convention_irrelevant
+#print axioms C17_old_split_cr_witness
+#print axioms C17_parsePrecedingComment_tie
